@@ -35,6 +35,8 @@ from malt.pyct.static_analysis import reaching_fndefs
 class _Function(object):
 
   scope = None
+  # Number of enclosing statements whose blocks are turned into functions.
+  block_depth = 0
 
 
 class ControlFlowTransformer(converter.Base):
@@ -49,6 +51,26 @@ class ControlFlowTransformer(converter.Base):
     with self.state[_Function] as fn:
       fn.scope = anno.getanno(node, annos.NodeAnno.BODY_SCOPE)
       return self.generic_visit(node)
+
+  def _visit_blocks(self, node):
+    self.state[_Function].block_depth += 1
+    node = self.generic_visit(node)
+    self.state[_Function].block_depth -= 1
+    return node
+
+  def visit_AnnAssign(self, node):
+    node = self.generic_visit(node)
+    if not self.state[_Function].block_depth:
+      return node
+    # The functions generated for the enclosing block declare the symbols they
+    # modify as nonlocal, which Python rejects for annotated names. Annotations
+    # of local variables are never evaluated, so they can be dropped.
+    if node.value is None:
+      new_node = ast.Pass()
+    else:
+      new_node = ast.Assign(targets=[node.target], value=node.value)
+    anno.copyanno(node, new_node, anno.Basic.ORIGIN)
+    return new_node
 
   def _create_nonlocal_declarations(self, vars_):
     vars_ = set(vars_)
@@ -206,7 +228,7 @@ class ControlFlowTransformer(converter.Base):
     return scope_vars, undefined, nouts
 
   def visit_If(self, node):
-    node = self.generic_visit(node)
+    node = self._visit_blocks(node)
     body_scope = anno.getanno(node, annos.NodeAnno.BODY_SCOPE)
     orelse_scope = anno.getanno(node, annos.NodeAnno.ORELSE_SCOPE)
 
@@ -263,7 +285,7 @@ class ControlFlowTransformer(converter.Base):
     return new_nodes
 
   def visit_While(self, node):
-    node = self.generic_visit(node)
+    node = self._visit_blocks(node)
     body_scope = anno.getanno(node, annos.NodeAnno.BODY_SCOPE)
 
     loop_vars, undefined, _ = self._get_block_vars(node, body_scope.bound)
@@ -313,7 +335,7 @@ class ControlFlowTransformer(converter.Base):
     return new_nodes
 
   def visit_For(self, node):
-    node = self.generic_visit(node)
+    node = self._visit_blocks(node)
     body_scope = anno.getanno(node, annos.NodeAnno.BODY_SCOPE)
     iter_scope = anno.getanno(node, annos.NodeAnno.ITERATE_SCOPE)
 
